@@ -549,7 +549,13 @@ func (fc *fnCtx) applySpec(st *State, fr *frame, site string, spec *effSpec, rec
 		fc.blockingCall(st, fr, site, spec, recv, args)
 	}
 	// post-state: havoc what the callee may modify
-	fc.havocModifies(st, spec, recv, args)
+	fc.curFrame, fc.curSite = fr, site
+	if !spec.flags["syncwrites"] {
+		fc.havocModifies(st, spec, recv, args)
+	}
+	// (syncwrites: the callee writes only lock-protected registry state — guarded-by obligations inside it —
+	// which no other contract can observe, and leaves its mutex as it found it: nothing changes for the caller)
+	fc.curFrame = nil
 	n := fc.declare(st, "now", "Int")
 	st.pc = append(st.pc, fmt.Sprintf("(>= %s %s)", n, st.now))
 	st.now = n
@@ -613,6 +619,9 @@ func (fc *fnCtx) applySpec(st *State, fr *frame, site string, spec *effSpec, rec
 		res = append(res, fc.freshVal(st, fmt.Sprintf("r%d", i), t))
 	}
 	for _, en := range append(append([]effClause(nil), spec.ensures...), spec.defines...) {
+		if en.Kind == "checks" {
+			continue // internal postcondition: not visible to callers
+		}
 		sc := fc.calleeCtx(st, spec, en.params, recv, args, res)
 		sc.old, sc.oldNow = preHeap, preNow
 		if g, ok := evalIn(sc, en, SBool); ok {
@@ -632,8 +641,10 @@ func xensuresFalse(spec *effSpec) bool {
 }
 
 func (fc *fnCtx) havocModifies(st *State, spec *effSpec, recv *Val, args []Val) {
+	pre := copyHeap(st.heap) // every location is named in the state before the call
 	for _, m := range spec.modifiesFor() {
 		sc := fc.calleeCtx(st, spec, m.params, recv, args, nil)
+		sc.heap = pre
 		for _, loc := range m.E.(*CallE).Args {
 			func() {
 				defer func() {
@@ -656,7 +667,17 @@ func (fc *fnCtx) havocLoc(st *State, sc *specCtx, loc Expr) {
 		cur := fc.region(st, region, sort)
 		elemSort := sort[len("(Array U ") : len(sort)-1]
 		h := fc.declare(st, "hv", elemSort)
+		if strings.HasPrefix(region, "M.") && strings.Contains(obj, "nil") {
+			// a conditional location (ite(c, x, nil)): nothing is written when it denotes nil
+			h = fmt.Sprintf("(ite (= %s nil) (select %s %s) %s)", obj, cur, obj, h)
+		}
 		fc.setRegion(st, region, sort, store(cur, obj, h))
+	}
+	// C19: what a callee's contract says it may write counts as a write of the caller
+	wr := func(region, obj string, extra ...string) {
+		if fc.curFrame != nil {
+			fc.checkWrite(st, fc.curFrame, fc.curSite+"."+loc.String(), region, obj, extra...)
+		}
 	}
 	switch l := loc.(type) {
 	case *Ident:
@@ -664,6 +685,7 @@ func (fc *fnCtx) havocLoc(st *State, sc *specCtx, loc Expr) {
 		case "nothing":
 			return
 		case "everything":
+			wr("*", "")
 			for r := range fc.regionSort {
 				fc.havocRegion(st, r)
 			}
@@ -674,9 +696,11 @@ func (fc *fnCtx) havocLoc(st *State, sc *specCtx, loc Expr) {
 			obj := sc.eval(l.Args[0])
 			if obj.S == SSlice {
 				rn, rs := elemsRegion(SU)
+				wr(rn, app("sl_arr", obj.T), fmt.Sprintf("(= (sl_len %s) 0)", obj.T)) // an empty slice has no elements to write
 				havocAt(rn, rs, app("sl_arr", obj.T))
 				return
 			}
+			wr("M."+l.Fun, obj.T)
 			// an object of concrete type with a model clause: the model is derived from its
 			// representation, which is what changes; otherwise the abstract model field
 			if !fc.havocRepresentation(st, sc, l.Fun, obj) {
@@ -691,11 +715,25 @@ func (fc *fnCtx) havocLoc(st *State, sc *specCtx, loc Expr) {
 			t := obj.T
 			if obj.S == SSlice {
 				t = app("sl_arr", obj.T)
+				wr(rn, t, fmt.Sprintf("(= (sl_len %s) 0)", obj.T))
+			} else {
+				wr(rn, t)
 			}
 			havocAt(rn, rs, t)
 			return
+		case "global":
+			// global(NAME): a package-level variable of the contract's package
+			if id, ok := l.Args[0].(*Ident); ok {
+				rn := "global." + sc.pkg + "." + id.Name
+				wr(rn, "")
+				if _, ok := fc.regionSort[rn]; ok {
+					fc.havocRegion(st, rn)
+				}
+				return
+			}
 		case "mapof":
 			obj := sc.eval(l.Args[0])
+			wr("map.dom", obj.T)
 			havocAt("map.dom", "(Array U (Array U Bool))", obj.T)
 			havocAt("map.get", "(Array U (Array U U))", obj.T)
 			havocAt("map.card", "(Array U Int)", obj.T)
@@ -707,6 +745,7 @@ func (fc *fnCtx) havocLoc(st *State, sc *specCtx, loc Expr) {
 				if _, isModel := fc.e.contracts.Models[name]; isModel {
 					name = "M." + name // region(model): the model of every object
 				}
+				wr(name, "")
 				fc.havocRegion(st, name)
 				return
 			}
@@ -724,6 +763,7 @@ func (fc *fnCtx) havocLoc(st *State, sc *specCtx, loc Expr) {
 		for i := 0; i < stt.NumFields(); i++ {
 			f := stt.Field(i)
 			if f.Name() == l.Name {
+				wr(fieldRegion(named.Origin(), f.Name()), obj.T)
 				havocAt(fieldRegion(named.Origin(), f.Name()), regionArraySort(sortOfType(f.Type())), obj.T)
 				return
 			}
@@ -940,6 +980,8 @@ func (fc *fnCtx) builtin(st *State, fr *frame, call *ssa.Call, b *ssa.Builtin, k
 		k(st, Val{T: n, S: SInt, GT: call.Type()})
 	case "delete":
 		m, key := args[0], fc.box(st, args[1])
+		fc.checkMapGuard(st, fr, call, m, true)
+		fc.checkWrite(st, fr, fc.instrLabel(fr, call), "map.dom", m.T)
 		fc.mapDelete(st, m.T, key.T)
 		k(st, Val{S: STuple})
 	case "close":
@@ -979,6 +1021,7 @@ func (fc *fnCtx) lookup(st *State, fr *frame, ins *ssa.Lookup) {
 	x := fc.val(st, ins.X)
 	switch t := ins.X.Type().Underlying().(type) {
 	case *types.Map:
+		fc.checkMapGuard(st, fr, ins, x, false)
 		key := fc.box(st, fc.val(st, ins.Index))
 		dom, get, _ := fc.mapRegions(st)
 		present := and(not(eq(x.T, "nil")), sel(sel(dom, x.T), key.T))
